@@ -140,6 +140,20 @@ theorem gen_native_clf (cfg : Cfg L W) (pfit : C → Data L W → C) (ub sb : Bo
       rw [this]; simp
   · simp [hx] at hs
 
+/-- **the two translated blocks of the emulated `partial_fit` together**: from an in-step record `d` (the current or the base
+record) the new-record block yields `d'`, the closing `fit` stores it (translated tail, no native `partial_fit`), and the object
+then holds exactly the specified training list: the old triples without the re-added indices (with `enforce_unique_samples`),
+followed by the added triples. -/
+theorem gen_emulated_partial_fit_record (u sb : Bool) (o o' : WObj C L W) (c : C) (d d' : Data L W)
+    (idx : List Int) (ay : List L) (aw : Option (List W))
+    (hd : d.WF) (ha : (⟨idx, ay, aw⟩ : Data L W).WF)
+    (hm : partial_fit.merge u d.idx d.y d.sw idx ay aw = .ok d')
+    (hc : o.clf_ = some c) (hs : fit.store false sb o d'.idx d'.y d'.sw = .ok o') :
+    (absW o').cur = some d' ∧ d'.WF ∧ d'.triples = specPartial u d.triples (Data.triples ⟨idx, ay, aw⟩) := by
+  obtain ⟨hwf, htr, -, -⟩ := gen_merge_spec u d idx ay aw hd ha d' hm
+  have := gen_fit_store_record_complete false sb o o' c d'.idx d'.y d'.sw hc hs rfl
+  exact ⟨this, hwf, htr⟩
+
 /-- non-vacuity: relabelling sample 1 of the record `[3, 1, 4]` in unique mode moves it to the end; without the flag it is
 listed twice -/
 example : partial_fit.merge true [3, 1, 4] [10, 11, 12] (some [1, 2, 3]) [1] [77] (some [9]) =
